@@ -111,6 +111,18 @@ use crate::traits::{Identity, IsIdentity};
 #[no_mangle] #[inline(never)] pub fn vp_mont_to_edwards(u: &[u8; 32], sign: u8, out: &mut EdwardsPoint) -> bool {
     match MontgomeryPoint(*u).to_edwards(sign) { Some(p) => { *out = p; true } None => false }
 }
+// Hash for MontgomeryPoint: every byte the impl feeds to the hasher, in order (length prefixes included), first 40 bytes + count
+pub struct VpRecHasher { pub buf: [u8; 40], pub n: usize }
+impl core::hash::Hasher for VpRecHasher {
+    fn finish(&self) -> u64 { self.n as u64 }
+    fn write(&mut self, bytes: &[u8]) { for b in bytes { if self.n < 40 { self.buf[self.n] = *b; } self.n += 1; } }
+}
+#[no_mangle] #[inline(never)] pub fn vp_mont_hash(u: &[u8; 32], out: &mut [u8; 40]) -> usize {
+    use core::hash::Hash;
+    let mut h = VpRecHasher { buf: [0u8; 40], n: 0 };
+    MontgomeryPoint(*u).hash(&mut h);
+    *out = h.buf; h.n
+}
 #[no_mangle] #[inline(never)] pub fn vp_mont_ct_eq(a: &[u8; 32], b: &[u8; 32]) -> u8 { MontgomeryPoint(*a).ct_eq(&MontgomeryPoint(*b)).unwrap_u8() }
 #[no_mangle] #[inline(never)] pub fn vp_mont_elligator_encode(r: &FieldElement) -> [u8; 32] { crate::montgomery::elligator_encode(r).to_bytes() }
 
